@@ -151,10 +151,51 @@ def pr_like(nprs, n, pdry):
     return x
 
 
+ISIMIP_VARS = ["hurs", "prsnratio", "psl", "rlds", "rsds", "sfcWind", "tasrange", "tasskew"]  # tas and pr have their own cases
+
+
+def isimip_var_like(var, nprs, dates, shift):
+    """tie-free data in the physical range of an ISIMIP variable (seasonal cycle, values beyond the variable's thresholds
+    as distinct numbers); `shift` separates obs / cm_hist / cm_future"""
+    n = dates.size
+    doy = np.array([d.timetuple().tm_yday for d in dates])
+    s = np.sin(2 * np.pi * (doy - 100) / 365.25)
+    if var == "hurs":
+        x = np.clip(100 * nprs.beta(4, 1.5, n) * (0.9 + 0.05 * s) + shift, 0, 100)
+        hi = x >= 99.99
+        x[hi] = 99.99 + 0.00999 * nprs.uniform(0, 1, int(hi.sum()))
+        lo = x <= 0.01
+        x[lo] = 0.00999 * nprs.uniform(0, 1, int(lo.sum()))
+        return x
+    if var in ("prsnratio", "tasskew"):
+        x = nprs.beta(2, 2.5, n) * 0.98 + 0.01 + 0.001 * shift
+        if var == "prsnratio":
+            k = nprs.random_sample(n) < 0.15
+            x[k] = nprs.uniform(0, 0.0001, int(k.sum())) * 0.99
+            k = nprs.random_sample(n) < 0.05
+            x[k] = 0.9999 + nprs.uniform(0, 0.0001, int(k.sum())) * 0.99
+        return x
+    if var == "psl":
+        return 101000 + 800 * s + 600 * nprs.standard_normal(n) + 50 * shift
+    if var == "rlds":
+        return 310 + 60 * s + 25 * nprs.standard_normal(n) + 3 * shift
+    if var == "rsds":
+        x = (220 + 130 * s + 2 * shift) * nprs.beta(3, 1.2, n)
+        k = nprs.random_sample(n) < 0.03
+        x[k] = nprs.uniform(0, 1e-5, int(k.sum()))
+        return x
+    if var in ("sfcWind", "tasrange"):
+        x = (5 + 1.5 * s + 0.2 * shift) * nprs.weibull(2.2, n)
+        k = x <= 0.01
+        x[k] = nprs.uniform(0.0001, 0.0099, int(k.sum()))
+        return x
+    raise KeyError(var)
+
+
 def factories(L, S):
     """name -> (factory, needs_seed, data kind).  The eight debiasers with tas settings in running-window mode
-    (CDFt / QDM: year windows 17/9 by default), CDFt / QDM with other year windows, ISIMIP month mode,
-    ISIMIP pr (thresholds: step 4 randomises, seeded), window-free mode."""
+    (CDFt / QDM: year windows 17/9 by default), CDFt / QDM with other year windows, ISIMIP month mode, every ISIMIP variable
+    (thresholds: step 4 randomises, seeded; rsds: steps 1 / 8), the precipitation models, window-free mode, large samples."""
     import scipy.stats
     from ibicus.debias import (CDFt, ECDFM, ISIMIP, LinearScaling, QuantileDeltaMapping, QuantileMapping,
                                ScaledDistributionMapping)
@@ -173,15 +214,57 @@ def factories(L, S):
     fs["ISIMIP-trend-months"] = (lambda: ISIMIP.from_variable("tas", running_window_mode=False), False, "tas-trend")
     fs["ISIMIP-pr-seeded"] = (lambda: ISIMIP.from_variable("pr", **kw), True, "pr")
     fs["ISIMIP-pr-months-seeded"] = (lambda: ISIMIP.from_variable("pr", running_window_mode=False), True, "pr")
+    for var in ISIMIP_VARS:  # every variable has its own special steps (bounds, thresholds, imputation, annual-cycle scaling …)
+        fs[f"ISIMIP-{var}"] = (lambda var=var: ISIMIP.from_variable(var, **kw), True, "isimip:" + var)
+        fs[f"ISIMIP-{var}-months"] = (lambda var=var: ISIMIP.from_variable(var, running_window_mode=False), True, "isimip:" + var)
     fs["ScaledDistributionMapping-pr"] = (lambda: ScaledDistributionMapping.from_variable("pr", **kw), False, "pr")
     fs["ScaledDistributionMapping-pr-windowfree"] = (lambda: ScaledDistributionMapping.from_variable("pr", running_window_mode=False), False, "pr")
     fs["QuantileMapping-nonparametric"] = (lambda: QuantileMapping.from_variable("tas", mapping_type="nonparametric", **kw), False, "tas")
     off = dict(running_window_mode=False)
+    noyr = dict(running_window_mode=False, running_window_mode_over_years_of_cm_future=False)
     fs["LinearScaling-windowfree"] = (lambda: LinearScaling.from_variable("tas", **off), False, "tas")
     fs["QuantileMapping-windowfree"] = (lambda: QuantileMapping.from_variable("tas", **off), False, "tas")
     fs["ScaledDistributionMapping-windowfree"] = (lambda: ScaledDistributionMapping.from_variable("tas", **off), False, "tas")
     fs["ECDFM-windowfree"] = (lambda: ECDFM.from_variable("tas", distribution=scipy.stats.norm, **off), False, "tas")
+    # the precipitation models (censored gamma: Nelder-Mead fit, values below the censoring threshold are randomised in the cdf;
+    # hurdle without randomisation; ignore_zeros)
+    thr = 0.1 / 86400
+    fs["QuantileDeltaMapping-pr"] = (lambda: QuantileDeltaMapping.from_variable("pr", **kw), True, "pr")
+    fs["QuantileDeltaMapping-pr-windowfree"] = (lambda: QuantileDeltaMapping.from_variable("pr", **off), True, "pr")
+    fs["QuantileMapping-pr-censored-windowfree"] = (lambda: QuantileMapping.for_precipitation(model_type="censored", **off), True, "pr")
+    fs["ECDFM-pr-censored-windowfree"] = (lambda: ECDFM.for_precipitation(model_type="censored", censoring_threshold=thr, **off), True, "pr")
+    fs["QuantileMapping-pr-censored"] = (lambda: QuantileMapping.for_precipitation(model_type="censored", **kw), True, "pr")
+    fs["QuantileMapping-pr-hurdle-windowfree"] = (lambda: QuantileMapping.for_precipitation(model_type="hurdle", hurdle_model_randomization=False, **off), False, "pr")
+    fs["QuantileMapping-pr-ignorezeros-windowfree"] = (lambda: QuantileMapping.for_precipitation(model_type="ignore_zeros", **off), False, "pr")
+    fs["CDFt-pr"] = (lambda: CDFt.from_variable("pr", SSR=False, **kw), False, "pr")
+    # large samples (window-free or long windows): size-gated code paths
+    for nm in ("QuantileDeltaMapping-pr-windowfree", "QuantileMapping-pr-censored-windowfree", "ECDFM-pr-censored-windowfree",
+               "QuantileMapping-pr-hurdle-windowfree", "QuantileMapping-pr-ignorezeros-windowfree", "ScaledDistributionMapping-pr-windowfree",
+               "QuantileDeltaMapping-pr", "ISIMIP-pr-seeded", "CDFt-pr", "LinearScaling-windowfree", "QuantileMapping-windowfree",
+               "ScaledDistributionMapping-windowfree", "ECDFM-windowfree", "ISIMIP", "ISIMIP-rsds", "ISIMIP-hurs", "CDFt"):
+        fs[nm + "-large"] = fs[nm]
+    fs["CDFt-windowfree-large"] = (lambda: CDFt.from_variable("tas", **noyr), False, "tas")
+    fs["QuantileDeltaMapping-windowfree-large"] = (lambda: QuantileDeltaMapping.from_variable("tas", **noyr), False, "tas")
+    fs["QuantileMapping-nonparametric-windowfree-large"] = (lambda: QuantileMapping.from_variable("tas", mapping_type="nonparametric", **off), False, "tas")
     return fs
+
+
+def case_opts(name):
+    """tolerance / comparison options of a configuration.
+    * censored gamma (QDM pr, QM / ECDFM for_precipitation(censored)): the Nelder-Mead likelihood fit has ~1e-7 relative noise
+      under re-ordering of the sample (summation order) -> relative tolerance 1e-4;
+    * QM / ECDFM with the censored model: the cdf of a value below the censoring threshold is a fresh random draw per array
+      position (inherently random, like CDFt's SSR) -> only the time steps at or above the threshold are compared (QDM censors
+      them to zero, so there all steps are compared)."""
+    o = {"rtol": 1e-9, "mask": None, "thr": None}
+    if "pr-censored" in name or name.startswith("QuantileDeltaMapping-pr"):
+        o["rtol"] = 1e-4
+    if "pr-censored" in name:
+        o["mask"] = "wet"
+        # QuantileMapping detrends multiplicatively before the cdf: the randomised steps are those with x / delta below the
+        # threshold, delta = mean(cm_future) / mean(cm_hist) of the window (within [1/4, 4] for the generated data)
+        o["thr"] = (4 if name.startswith("QuantileMapping") else 1) * 0.1 / 86400
+    return o
 
 
 BASE8 = ["LinearScaling", "DeltaChange", "QuantileMapping", "ScaledDistributionMapping", "ECDFM", "CDFt", "QuantileDeltaMapping", "ISIMIP"]
@@ -190,10 +273,36 @@ EXTRA = ["CDFt-years3/1", "QuantileDeltaMapping-years3/1", "CDFt-years17/9", "Qu
          "ISIMIP-months", "ISIMIP-trend", "ISIMIP-trend-months", "ISIMIP-pr-seeded", "ISIMIP-pr-months-seeded",
          "ScaledDistributionMapping-pr", "ScaledDistributionMapping-pr-windowfree", "QuantileMapping-nonparametric", "LinearScaling-windowfree",
          "QuantileMapping-windowfree", "ScaledDistributionMapping-windowfree", "ECDFM-windowfree"]
+ISIMIP_ALL = [f"ISIMIP-{v}{m}" for v in ISIMIP_VARS for m in ("", "-months")]
+PRECIP = ["QuantileDeltaMapping-pr", "QuantileDeltaMapping-pr-windowfree", "QuantileMapping-pr-censored-windowfree", "ECDFM-pr-censored-windowfree",
+          "QuantileMapping-pr-censored", "QuantileMapping-pr-hurdle-windowfree", "QuantileMapping-pr-ignorezeros-windowfree", "CDFt-pr"]
+# (name, expensive): expensive ones get the smallest "large" size in the quick tier
+LARGE = [("QuantileDeltaMapping-pr-windowfree-large", True), ("QuantileMapping-pr-censored-windowfree-large", False),
+         ("ECDFM-pr-censored-windowfree-large", False), ("QuantileMapping-pr-hurdle-windowfree-large", False),
+         ("QuantileMapping-pr-ignorezeros-windowfree-large", False), ("ScaledDistributionMapping-pr-windowfree-large", False),
+         ("ISIMIP-pr-seeded-large", False), ("CDFt-pr-large", False), ("LinearScaling-windowfree-large", False),
+         ("QuantileMapping-windowfree-large", False), ("ScaledDistributionMapping-windowfree-large", False), ("ECDFM-windowfree-large", False),
+         ("ISIMIP-large", False), ("ISIMIP-rsds-large", False), ("ISIMIP-hurs-large", False), ("CDFt-large", False),
+         ("CDFt-windowfree-large", False), ("QuantileDeltaMapping-windowfree-large", False),
+         ("QuantileMapping-nonparametric-windowfree-large", False)]
+LARGE_THOROUGH = [("QuantileDeltaMapping-pr-large", True)]  # 60+ years with the default 91-day window: > 4000 wet values per window
+OUTLIER_OK = ("tas", "tas-trend", "isimip:psl", "isimip:rlds")
 
 
-def gen_case(rng, name, tier):
+def data_kind(name):
+    if name.endswith("-large"):
+        name = name[:-6]
+    if name.startswith("ISIMIP-") and name.split("-")[1] in ISIMIP_VARS:
+        return "isimip:" + name.split("-")[1]
+    if "-pr" in name:
+        return "pr"
+    return "tas-trend" if "trend" in name else "tas"
+
+
+def gen_case(rng, name, tier, size_rank=None):
     """plain-data description of one oracle case (everything needed to rebuild it: `build`)"""
+    kind = data_kind(name)
+    large = name.endswith("-large")
     y0 = rng.randint(1960, 2080)
     if rng.random() < 0.5:
         y0 -= y0 % 4  # the corrected series starts in a leap year
@@ -206,15 +315,41 @@ def gen_case(rng, name, tier):
         nyears = rng.choice([4, 6, 7])
     else:
         nyears = rng.choice([1, 2, 3])
+    # outliers: 2-3 distinct extreme values (far beyond 6.4 fitted standard deviations, where a normal cdf saturates at the
+    # thresholds 1e-10 / 1 - 1e-10) on neighbouring days: the inputs stay tie-free, intermediate quantities become tied
+    outliers = None
+    if kind in OUTLIER_OK and not large and rng.random() < (0.6 if "ScaledDistributionMapping" in name else 0.35):
+        outliers = {"k": rng.choice([2, 3, 3]), "sign": rng.choice([1, 1, -1]), "who": rng.choice(["F", "F", "OHF"])}
+        if "windowfree" not in name and "months" not in name:
+            S = rng.choice([31, 45, 61])
+            L = S + rng.choice([30, 60, 90])  # enough values per window for the outliers to stay > 6.4 sigma after the fit
+        nyears = max(nyears, 3)
+    # a corrected period in which day of year 366 never occurs (no 31 December of a leap year): per-day-of-year tables then have
+    # 365 entries and are indexed through the list of days present
+    no366 = False
+    if not large and nyears <= 3 and rng.random() < (0.5 if kind.startswith("isimip:") else 0.3):
+        no366 = True
+        y0 = y0 - y0 % 4 + 1
     off = rng.choice([0, rng.randint(1, 364), rng.randint(1, 364)])  # not starting on 1 January
     nX = 365 * nyears + rng.randint(0, 60)
-    if nyears == 1 and rng.random() < 0.3:
+    if nyears == 1 and rng.random() < 0.3 and not outliers:
         nX = rng.randint(120, 364)
+    if no366:
+        nX = min(nX, 365 * 3 + 364 - off)  # ends before 31 December of year y0 + 3 (the next leap year)
     ncal = [5, 6] if "trend" in name else [2, 3, 4]
     cal1 = {"start": [y0 - 30, 1, 1], "n": 365 * rng.choice(ncal[:2]) + rng.randint(1, 30)}
     cal2 = {"start": [y0 - 12 - (y0 - 12) % 4 if rng.random() < 0.5 else y0 - 11, 1, 1], "n": 365 * rng.choice(ncal) + rng.randint(1, 30)}
     startX = datetime.date(y0, 1, 1) + datetime.timedelta(days=off)
     X = {"start": [startX.year, startX.month, startX.day], "n": nX}
+    if large:
+        # every series long: more than 4000 / 10001 / 20000 values (wet values for precipitation) in a fitting sample
+        sizes = [16, 40, 72] if kind == "pr" else [12, 30, 60]
+        ny = sizes[size_rank if size_rank is not None else rng.randrange(3)]
+        if "windowfree" not in name:
+            L, S = 91, 31
+        cal1 = {"start": [y0 - 160, 1, 1], "n": 365 * ny + rng.randint(1, 30)}
+        cal2 = {"start": [y0 - 80, 3, 1], "n": 365 * ny + rng.randint(1, 30)}
+        X = {"start": [startX.year, startX.month, startX.day], "n": 365 * ny + rng.randint(0, 60)}
     if name == "DeltaChange":
         spans = {"O": X, "H": cal1, "F": cal2}
     else:
@@ -226,7 +361,7 @@ def gen_case(rng, name, tier):
     equal = None
     if name == "DeltaChange":
         equal = "OH" if r < 0.5 else ("OHF" if r < 0.6 else None)
-    elif r < 0.45:
+    elif r < 0.45 and not no366:
         equal = rng.choice(["OH", "HF", "OHF", "OH", "HF"])
     if equal:
         n_eq = max(spans[k]["n"] for k in equal)
@@ -237,8 +372,22 @@ def gen_case(rng, name, tier):
                 spans[k]["start"] = list(spans[equal[0]]["start"])
         for k in equal:  # every series of the group really re-ordered, each with its own permutation
             kinds["OHF".index(k)] = rng.choice(["full", "full", "blockswap", "rotate"])
+    if large or outliers or no366:  # the corrected series (and the fitting samples) really re-ordered
+        for k in range(3):
+            if kinds[k] in ("identity", "reverse"):
+                kinds[k] = rng.choice(["full", "full", "blockswap", "rotate"])
     return {"what": "oracle/" + name, "debiaser": name, "L": L, "S": S, "spans": spans, "np_seed": rng.randint(0, 2**31 - 1),
-            "perms": kinds, "equal": equal, "verif_seed": C.seed()}
+            "perms": kinds, "equal": equal, "outliers": outliers, "no366": no366, "verif_seed": C.seed()}
+
+
+def inject_outliers(nprs, x, spec, sd):
+    """k distinct extreme values on neighbouring days (same window), 25-45 noise standard deviations from the local level"""
+    k = spec["k"]
+    i0 = int(nprs.randint(0, max(1, x.size - k)))
+    base = float(np.median(x))
+    for j in range(k):
+        x[i0 + j] = base + spec["sign"] * sd * (25.0 + 7.0 * j + nprs.uniform(0, 3))
+    return x
 
 
 def build(case):
@@ -247,12 +396,24 @@ def build(case):
     d = {k: probes.dates_from(datetime.date(*sp[k]["start"]), sp[k]["n"]) for k in "OHF"}
     mk, seeded, data = factories(case["L"], case["S"])[case["debiaser"]]
     if data == "pr":
-        o, h, f = pr_like(nprs, d["O"].size, 0.2), pr_like(nprs, d["H"].size, 0.45), pr_like(nprs, d["F"].size, 0.45)
+        o, h, f = pr_like(nprs, d["O"].size, 0.2), pr_like(nprs, d["H"].size, 0.3), pr_like(nprs, d["F"].size, 0.25)
+        if not case["debiaser"].startswith(("Quantile", "ECDFM", "CDFt")):  # the cases of the earlier rounds keep their data
+            nprs = np.random.RandomState(case["np_seed"])
+            o, h, f = pr_like(nprs, d["O"].size, 0.2), pr_like(nprs, d["H"].size, 0.45), pr_like(nprs, d["F"].size, 0.45)
+    elif data.startswith("isimip:"):
+        var = data.split(":")[1]
+        o, h, f = (isimip_var_like(var, nprs, d[k], sh) for k, sh in (("O", 0), ("H", 1), ("F", 2)))
     else:
         o, h, f = probes.tas_like(nprs, d["O"], 283, 3), probes.tas_like(nprs, d["H"], 285, 4), probes.tas_like(nprs, d["F"], 287, 4)
         if data == "tas-trend":  # a significant trend in the annual means: ISIMIP's step 3 / step 7 are active
             yr = lambda dd: np.array([x.year + x.timetuple().tm_yday / 366.0 for x in dd])  # noqa: E731
             o, h, f = o + 0.8 * (yr(d["O"]) - yr(d["O"])[0]), h + 1.1 * (yr(d["H"]) - yr(d["H"])[0]), f + 1.5 * (yr(d["F"]) - yr(d["F"])[0])
+    spec = case.get("outliers")
+    if spec:
+        sd = {"isimip:psl": 600.0, "isimip:rlds": 25.0}.get(data, 4.0)
+        f = inject_outliers(nprs, f, spec, sd)
+        if spec["who"] == "OHF":
+            o, h = inject_outliers(nprs, o, spec, sd), inject_outliers(nprs, h, spec, sd)
     pO, pH, pF = (make_perm(nprs, x.size, k) for x, k in zip((o, h, f), case["perms"]))
     for a, b in ((pO, pH), (pH, pF), (pO, pF)):  # equal-length series must not share one permutation
         if a.size == b.size and a.size > 2 and np.array_equal(a, b) and not np.array_equal(a, np.arange(a.size)):
@@ -265,7 +426,7 @@ def run_case(case):
     mk, seeded, (o, h, f, dO, dH, dF), (pO, pH, pF) = build(case)
     if any(np.unique(x).size != x.size for x in (o, h, f)):
         return "skip", "ties in the generated data"
-    pOut = pO if case["debiaser"] == "DeltaChange" else pF
+    opts = case_opts(case["debiaser"])
 
     def run(args):
         if seeded:
@@ -278,36 +439,65 @@ def run_case(case):
                 return "error", type(ex).__name__ + ": " + str(ex)[:80]
 
     k1, a = run((o, h, f, dO, dH, dF))
-    k2, b = run((o[pO], h[pH], f[pF], dO[pO], dH[pH], dF[pF]))
-    if k1 == "error" or k2 == "error":
-        if k1 == k2 and a.split(":")[0] == b.split(":")[0]:
-            return "skip", f"both runs raise {a.split(':')[0]}"
-        return "violation", f"ordered input: {k1} {a if k1 == 'error' else ''}; shuffled input: {k2} {b if k2 == 'error' else ''}"
-    if a.shape != (pOut.size,) or b.shape != a.shape:
-        return "violation", f"result shapes {a.shape} / {b.shape}, expected ({pOut.size},)"
-    scale = float(max(np.abs(o).max(), np.abs(h).max(), np.abs(f).max()))
-    tol = 1e-9 * (1 + scale)
-    want = a[pOut]
-    bad = ~((np.abs(b - want) <= tol) | (np.isnan(b) & np.isnan(want)))
-    if bad.any():
-        i = int(np.where(bad)[0][0])
-        date = (dO[pO] if case["debiaser"] == "DeltaChange" else dF[pF])[i]
-        return "violation", (f"{int(bad.sum())} of {bad.size} time steps changed their debiased value when the dated series were re-ordered "
-                             f"(perms obs/cm_hist/cm_future = {case['perms']}); first: {date} {want[i]!r} -> {b[i]!r} (tol {tol:.2e})")
-    return "ok", float(np.nanmax(np.abs(b - want))) if bad.size else 0.0
+    variants = [(pO, pH, pF)]
+    if case.get("outliers"):  # which storage orders expose a dependence on the order of tied intermediate values varies: try a second one
+        nprs2 = np.random.RandomState(case["np_seed"] // 2 + 1)
+        variants.append((nprs2.permutation(o.size), nprs2.permutation(h.size), nprs2.permutation(f.size)))
+    worst_dev = 0.0
+    for nv, (pO, pH, pF) in enumerate(variants):
+        pOut = pO if case["debiaser"] == "DeltaChange" else pF
+        k2, b = run((o[pO], h[pH], f[pF], dO[pO], dH[pH], dF[pF]))
+        if k1 == "error" or k2 == "error":
+            if k1 == k2 and a.split(":")[0] == b.split(":")[0]:
+                return "skip", f"both runs raise {a.split(':')[0]}"
+            return "violation", f"ordered input: {k1} {a if k1 == 'error' else ''}; shuffled input: {k2} {b if k2 == 'error' else ''}"
+        if a.shape != (pOut.size,) or b.shape != a.shape:
+            return "violation", f"result shapes {a.shape} / {b.shape}, expected ({pOut.size},)"
+        scale = float(max(np.abs(o).max(), np.abs(h).max(), np.abs(f).max()))
+        kind = data_kind(case["debiaser"])
+        want = a[pOut]
+        # tas-like data (scale ~ 300): the convention 1e-9 * (1 + scale); small-valued variables (pr ~ 1e-4, ratios) and ratio-type
+        # transfer functions whose results can exceed the input scale: relative to max(|value|, scale), element-wise
+        if kind in ("tas", "tas-trend"):
+            tol_i = np.full(want.shape, opts["rtol"] * (1 + scale))
+        else:
+            tol_i = opts["rtol"] * np.maximum(np.abs(np.nan_to_num(want)), scale)
+        bad = ~((np.abs(b - want) <= tol_i) | (np.isnan(b) & np.isnan(want)))
+        if opts["mask"] == "wet":  # steps below the censoring threshold get a fresh random cdf value per array position
+            bad &= f[pF] >= opts["thr"]
+        if bad.any():
+            i = int(np.where(bad)[0][0])
+            date = (dO[pO] if case["debiaser"] == "DeltaChange" else dF[pF])[i]
+            extra = "".join(f"; {k}={case[k]}" for k in ("outliers", "no366", "equal") if case.get(k))
+            how = f"perms obs/cm_hist/cm_future = {case['perms']}" if nv == 0 else "second storage order: three full permutations"
+            return "violation", (f"{int(bad.sum())} of {bad.size} time steps changed their debiased value when the dated series were re-ordered "
+                                 f"({how}{extra}); first: {date} {want[i]!r} -> {b[i]!r} (tol {tol_i[i]:.2e})")
+        dev = np.abs(b - want) / (tol_i / opts["rtol"])
+        if opts["mask"] == "wet":
+            dev = dev[f[pF] >= opts["thr"]]
+        if dev.size and not np.all(np.isnan(dev)):
+            worst_dev = max(worst_dev, float(np.nanmax(dev)))
+    return "ok", worst_dev
 
 
-def oracle(rng, names, reps, tier, res, problems):
-    worst = res.extra.setdefault("max_abs_deviation", {})
+def oracle(rng, names, reps, tier, res, problems, size_ranks=None):
+    worst = res.extra.setdefault("max_rel_deviation", {})
     for name in names:
         for r in range(reps):
-            case = gen_case(rng, name, tier)
+            case = gen_case(rng, name, tier, size_rank=None if size_ranks is None else size_ranks[r % len(size_ranks)])
             status, detail = run_case(case)
             nontrivial = any(k != "identity" for k in case["perms"])
-            if case.get("equal") and status == "ok":
-                eqc = res.extra.setdefault("oracle_equal_length_cases", {})
-                eqc[case["equal"]] = eqc.get(case["equal"], 0) + 1
-            res.count((name, case["L"], case["S"], tuple(case["perms"]), case["spans"]["F"]["n"], case.get("equal")), nontrivial and status == "ok",
+            if status == "ok":
+                for key in ("equal", "outliers", "no366"):
+                    if case.get(key):
+                        cnt = res.extra.setdefault("oracle_" + key + "_cases", {})
+                        tag = case[key] if key == "equal" else name.split("-")[0]
+                        cnt[tag] = cnt.get(tag, 0) + 1
+                if name.endswith("-large"):
+                    cnt = res.extra.setdefault("oracle_large_cases", {})
+                    cnt[str(case["spans"]["O"]["n"] // 365) + "y"] = cnt.get(str(case["spans"]["O"]["n"] // 365) + "y", 0) + 1
+            res.count((name, case["L"], case["S"], tuple(case["perms"]), case["spans"]["F"]["n"], case.get("equal"), bool(case.get("outliers")),
+                       case.get("no366")), nontrivial and status == "ok",
                       sample={k: case[k] for k in ("debiaser", "L", "S", "perms")} if r == 0 and name in ("ISIMIP", "CDFt-years3/1") else None)
             if status == "violation":
                 problems.append((f"{name}: {detail}", case))
@@ -329,7 +519,9 @@ def run(tier, res, force_search=False):
 def _run(tier, res, force_search=False):
     rng = random.Random(C.seed() * 15485863 + 6)
     res.rule = ("cases = (debiaser configuration, L, S, calendar spans incl. leap years / start off 1 January, permutation kind of each of the three "
-                "dated series: full | blockswap | rotate | reverse | identity, data seed) from one PRNG (VERIF_SEED); non-trivial when at least one series is "
+                "dated series: full | blockswap | rotate | reverse | identity, equal-length groups, injected extreme outliers, spans without day 366, "
+                "large samples (> 4000 / 10001 / 20000 values), data seed) from one PRNG (VERIF_SEED); configurations = the eight debiasers (tas), CDFt/QDM year "
+                "windows, every ISIMIP variable in both modes, the precipitation models, window-free mode; non-trivial when at least one series is "
                 "really re-ordered and both runs succeed; distinct = distinct (configuration, L, S, permutation kinds, length)")
     res.trusted = C.BASE_TRUSTED + [
         "calendar arithmetic (dates -> day of year / month / year) by Python; the model receives integer arrays",
@@ -342,7 +534,11 @@ def _run(tier, res, force_search=False):
     res.assumptions = [
         "exact rational arithmetic in the theorems; float summation order is carried by the oracle's tolerance 1e-9*(1+scale)",
         "tie-free values for the rank-based methods (SDM, ISIMIP step 6)",
-        "randomised configurations (ISIMIP with thresholds: step 4) are compared under the same numpy seed; CDFt with SSR is outside the deterministic statement",
+        "randomised configurations (ISIMIP with thresholds: step 4) are compared under the same numpy seed; CDFt with SSR, the hurdle model with "
+        "randomisation and — for QuantileMapping / ECDFM with the censored gamma model — the time steps below the censoring threshold (a fresh random "
+        "cdf value per array position) are outside the deterministic statement",
+        "censored gamma model (Nelder-Mead likelihood fit, ~1e-6 relative order noise measured on the unchanged tree): relative tolerance 1e-4; "
+        "all other configurations 1e-9 (tas-like: 1e-9*(1+scale); small-valued variables: 1e-9*max(|value|, scale))",
         "window step S = 2h+1 <= L (post-init normalisation, C07), days of year in 1..366",
     ]
 
@@ -403,6 +599,17 @@ def _run(tier, res, force_search=False):
         reps_extra *= 3
     oracle(rng, BASE8, reps, tier, res, problems)
     oracle(rng, EXTRA, reps_extra, tier, res, problems)
+    boost = 3 if (force_search or not lean_ok or res.tie_broken) else 1
+    # every ISIMIP variable (running-window and month mode), the precipitation models
+    oracle(rng, ISIMIP_ALL, (2 if tier == "quick" else 12) * boost, tier, res, problems)
+    oracle(rng, PRECIP, (2 if tier == "quick" else 10) * boost, tier, res, problems)
+    # large samples: > 4000 / > 10001 / > 20000 values per fitting sample
+    if tier == "quick":
+        oracle(rng, [n for n, exp in LARGE if exp], 1 * boost, tier, res, problems, size_ranks=[0])
+        oracle(rng, [n for n, exp in LARGE if not exp], 1 * boost, tier, res, problems, size_ranks=[rng.randrange(3), 0, 1, 2])
+    else:
+        oracle(rng, [n for n, _ in LARGE], 3, tier, res, problems, size_ranks=[0, 1, 2])
+        oracle(rng, [n for n, _ in LARGE_THOROUGH], 1, tier, res, problems, size_ranks=[2])
 
     # ---- verdict
     seen = set()
